@@ -342,6 +342,9 @@ def _lv_of(E, t, st):
     if isinstance(t, ast.Attribute):
         obj = E.ev1p(t.value, st)
         return LV("attr", obj, t.attr)
+    if isinstance(t, ast.Subscript) and not isinstance(t.slice, ast.Slice):
+        base_lv = _lv_of(E, t.value, st)
+        return LV("key", base_lv, E.ev1p(t.slice, st))
     raise OutsideSubset("augmented assignment target")
 
 
